@@ -29,6 +29,9 @@ EXPECT_UNDECIDED = {
                           "the purity proof (no store to pre-existing state) does not go through, while the bounded search "
                           "finds no decode that depends on an earlier one - undecided by design, never a violation",
     "C06.status-cache": "a correct cache of the bit names per (response class, answer byte) on the module: same reasoning",
+    "C05.private-rename": "Frame._error renamed: the Frame contracts are written over _bits/_data/_error; a constructor that "
+                          "no longer produces them is 'another representation' - undecided, never a violation",
+    "C06.private-rename": "Response._value renamed: same reasoning",
     "C07.agent-modernise": "Commissioning rewritten with nested generator closures (`sweep()`, `program()`), a generator "
                            "expression as the scan domain and `while True` instead of the `finished` flag: the loop headers "
                            "differ from the pinned ones and the invariants are not re-established, so the failures are "
